@@ -22,6 +22,7 @@ func init() {
 			"R4 lock life-cycle (handler registered before the lock is written, handled signals run every registered handler before exiting and after critical sections drained), " +
 			"R5 critical sections are balanced on all paths, no HandleSignal implementation enters one, and the multi-file updates named by the property are inside one, " +
 			"R6 a reset node re-reads its state, R7 unfinished work found at restart IS reset (once state == Failed in checkedReset / queued_locally exists in restartQueuedLocal / state == Queued or the recorded pid is dead in restartLocal holds on an edge, every path to the entry point's return passes uncheckedReset; verdict-returning helpers are followed into their callers). " +
+			"Round 4: R7 also for a Running job without a recorded pid (search with known facts through the shared else-if block) and with the state assumed Queued (edges contradicting the assumption pruned); R3 the uniquifier of a reset attempt is computed from, compared with, or independent of the previous one (not a pure function of pid and seconds). " +
 			"NOT decided: equality of final outputs with an uninterrupted run, behaviour at each individual crash prefix, PID reuse.",
 		Assumptions: commonAssumptions,
 	}
@@ -311,7 +312,19 @@ func ruleR2(c *an.Ctx) {
 					return ok && cl.Call.StaticCallee() != nil && cl.Call.StaticCallee().Name() == "Signal"
 				})
 				gnopid := guarded(in, noPidRecorded(p))
-				g = gq || (gr && gdead) || (gr && gnopid)
+				// the two reasons may share one reset site: every path to it crosses one of the two edges
+				isNoPid := noPidRecorded(p)
+				geither := guarded(in, func(r an.Rel) bool {
+					if isNoPid(r) {
+						return true
+					}
+					if r.Op != token.NEQ || !an.IsNil(r.Y) {
+						return false
+					}
+					cl, ok := r.X.(*ssa.Call)
+					return ok && cl.Call.StaticCallee() != nil && cl.Call.StaticCallee().Name() == "Signal"
+				})
+				g = gq || (gr && gdead) || (gr && gnopid) || (gr && geither)
 				want = "state == Queued, or state == Running and the recorded pid does not answer signal 0 (or no pid was recorded)"
 			}
 			c.Check("R2", "reset-guard@"+name, in.Pos(), g, "a metadata object may be reset only under "+want)
